@@ -480,23 +480,28 @@ def make_label(mini, layout, key, message=""):
       dtypes cannot be unioned, while the same program works on one partition;
     * ``other:assign:exception|wrong-result`` - assign of a differently partitioned series (outer alignment);
     * ``filter:or-of-identical-operands-then-filter:IndexingError@compute`` - ``s2 = s[p | p]; s2[s2]``;
+    * ``user-meta-tuple:comparison-with-column:identically-labeled`` - comparing ``s.apply(f, meta=(name, dtype))`` with a
+      column raises while the meta is built (the tuple meta has a default index);
     * exceptions raised inside the methods of one specific expression class are labelled by that site alone:
       ``expr-node:ExcType@Class.method``."""
     fams = [family(c) for c in mini["classes"]]
     steps = mini["steps"]
     exc = "@" in key or key.startswith("meta-generation")
+    site = key.split("@", 1)[1] if "@" in key else ""
     if key == MISMATCHED:
         return "aligned-operands:mismatched-divisions"
     if key == "IndexingError@compute" and any(
             st["op"] in ("filter", "sfilter") and isinstance(st.get("pred"), list) and st["pred"][:2] == ["bin", "|"]
             and st["pred"][2] == st["pred"][3] for st in steps[:-1]):
         return "filter:or-of-identical-operands-then-filter:IndexingError@compute"
-    if any(st["op"] == "apply_rows" for st in steps) and layout != "any-layout":
+    if exc and site.split(".")[0] in ("LT", "LE", "GT", "GE", "EQ", "NE", "LTSeries", "LESeries", "GTSeries", "GESeries",
+                                      "EQSeries", "NESeries") and "identically-labeled" in message:
+        return "user-meta-tuple:comparison-with-column:identically-labeled"
+    if any(st["op"] == "apply_rows" for st in steps) and (layout != "any-layout" or any(st["op"] == "other" for st in steps)):
         return "apply:axis1:empty-partition:%s" % ("exception" if exc else "wrong-result")
     if exc and layout != "any-layout" and ("_union_categoricals_wrapper" in key or
                                            "Categorical categories must be unique" in message):
         return PARTITIONWISE
-    site = key.split("@", 1)[1] if "@" in key else ""
     if exc and "." in site and ":" not in site and "(" not in site:
         owner = site.split(".")[0]
         if owner not in _GENERIC_OWNERS:
